@@ -322,6 +322,29 @@ func (this *partition) removeNode(nodeId uint64) {
 	}
 }
 
+// setNodes makes the replica list the given one (a catalogue snapshot carries whole lists),
+// one node at a time so that this node loads or unloads its replica as for a single change.
+func (this *partition) setNodes(nodeIds []uint64) {
+	wanted := make(map[uint64]struct{}, len(nodeIds))
+	for _, id := range nodeIds {
+		wanted[id] = struct{}{}
+	}
+	current := make(map[uint64]struct{})
+	for _, id := range this.nodeIds() {
+		current[id] = struct{}{}
+		if _, keep := wanted[id]; !keep {
+			this.removeNode(id)
+		}
+	}
+	for _, id := range nodeIds {
+		if _, has := current[id]; !has {
+			this.addNode(id)
+		}
+	}
+	// ... and in the order every other member lists them
+	this.meta.NodeIds = append([]uint64{}, nodeIds...)
+}
+
 func (this *partition) proposeAndWaitForCommit(ctx context.Context, proposal *pb.PartitionChange) (interface{}, error) {
 	ctx, cancelCtx := context.WithTimeout(ctx, proposalTimeout)
 	defer cancelCtx()
